@@ -38,7 +38,7 @@ impl<T: Copy + PartialEq> HashSet<T> {
 include!("extracted.rs");
 
 /// the segments a builder holds after `new()` + pushes, without the leading "" of `new()`
-pub fn built<'a, 'b>(pb: &'b PathBuilder<'a>) -> &'b [&'a str] { &pb.0[1..] }
+fn built<'a, 'b>(pb: &'b PathBuilder<'a>) -> &'b [&'a str] { &pb.0[1..] }
 
 pub const SEGS: [&str; 3] = ["a", "docs", "x"];
 /// route alphabet: every variant, an empty static, statics and optional-parameter names that do / do not occur as
@@ -96,27 +96,74 @@ pub fn check_round_trip(segs: &[&'static str], codes: &[u8]) {
     }
 }
 
+/// Bounded stand-in (native): every path of <= MAX_N segments over SEGS x every route of <= MAX_M segments over the
+/// route alphabet, both checks on each.  Driven by tools/native_unit.py:
+///   C14SEG_MAX_N / C14SEG_MAX_M   bounds (default 3 / 3)
+///   C14SEG_ONLY="<check>;<seg indices,>;<route codes,>"   replay of one case
+/// Prints `CASES check=<name> n=<count>` and, for the first failing case of each check,
+/// `FAIL check=<name> segs=<i,j,..> codes=<c,d,..> path=/a/docs route=<debug> msg=<panic message>`.
 #[cfg(test)]
 mod native {
     use super::*;
+    use std::panic;
+
+    fn run_case(check: &str, sidx: &[usize], codes: &[u8]) -> Result<(), String> {
+        let segs: Vec<&'static str> = sidx.iter().map(|i| SEGS[*i]).collect();
+        let codes = codes.to_vec();
+        let check = check.to_owned();
+        let r = panic::catch_unwind(move || {
+            if check == "identity_rewrite" { check_identity(&segs, &codes) } else { check_round_trip(&segs, &codes) }
+        });
+        r.map_err(|e| e.downcast_ref::<String>().cloned()
+            .or_else(|| e.downcast_ref::<&str>().map(|s| s.to_string())).unwrap_or_default())
+    }
+    fn report(check: &str, sidx: &[usize], codes: &[u8], msg: &str) {
+        let path: Vec<&str> = sidx.iter().map(|i| SEGS[*i]).collect();
+        let route: Vec<PathSegment> = codes.iter().map(|c| route_seg(*c)).collect();
+        println!("FAIL check={} segs={} codes={} path=/{} route={:?} msg={}", check,
+            sidx.iter().map(|x| x.to_string()).collect::<Vec<_>>().join(","),
+            codes.iter().map(|x| x.to_string()).collect::<Vec<_>>().join(","),
+            path.join("/"), route, msg.replace('\n', " "));
+    }
+    fn nums<T: std::str::FromStr>(s: &str) -> Vec<T> { s.split(',').filter(|x| !x.is_empty()).filter_map(|x| x.parse().ok()).collect() }
+
     #[test]
     fn exhaustive_small() {
-        // every path of <= 3 segments x every route of <= 3 segments (native, for the harness itself)
-        for n in 0..=3usize { for m in 0..=3usize {
-            let mut sidx = vec![0usize; n];
-            loop {
-                let segs: Vec<&'static str> = sidx.iter().map(|i| SEGS[*i]).collect();
-                let mut codes = vec![0u8; m];
+        panic::set_hook(Box::new(|_| {}));
+        println!();
+        if let Ok(only) = std::env::var("C14SEG_ONLY") {
+            let parts: Vec<&str> = only.split(';').collect();
+            let (sidx, codes) = (nums::<usize>(parts[1]), nums::<u8>(parts[2]));
+            if let Err(msg) = run_case(parts[0], &sidx, &codes) { report(parts[0], &sidx, &codes, &msg); std::process::exit(1); }
+            println!("CASES check={} n=1", parts[0]);
+            return;
+        }
+        let max_n: usize = std::env::var("C14SEG_MAX_N").ok().and_then(|v| v.parse().ok()).unwrap_or(3);
+        let max_m: usize = std::env::var("C14SEG_MAX_M").ok().and_then(|v| v.parse().ok()).unwrap_or(3);
+        let mut failed = false;
+        for check in ["identity_rewrite", "there_and_back"] {
+            let mut cases = 0u64;
+            let mut first: Option<(Vec<usize>, Vec<u8>, String)> = None;
+            for n in 0..=max_n { for m in 0..=max_m {
+                let mut sidx = vec![0usize; n];
                 loop {
-                    check_identity(&segs, &codes);
-                    check_round_trip(&segs, &codes);
-                    let mut k = 0; while k < m { codes[k] += 1; if codes[k] < ROUTE_CODES { break; } codes[k] = 0; k += 1; }
-                    if k == m { break; }
+                    let mut codes = vec![0u8; m];
+                    loop {
+                        cases += 1;
+                        if first.is_none() {
+                            if let Err(msg) = run_case(check, &sidx, &codes) { first = Some((sidx.clone(), codes.clone(), msg)); }
+                        }
+                        let mut k = 0; while k < m { codes[k] += 1; if codes[k] < ROUTE_CODES { break; } codes[k] = 0; k += 1; }
+                        if k == m { break; }
+                    }
+                    let mut k = 0; while k < n { sidx[k] += 1; if sidx[k] < SEGS.len() { break; } sidx[k] = 0; k += 1; }
+                    if k == n { break; }
                 }
-                let mut k = 0; while k < n { sidx[k] += 1; if sidx[k] < SEGS.len() { break; } sidx[k] = 0; k += 1; }
-                if k == n { break; }
-            }
-        } }
+            } }
+            println!("CASES check={} n={}", check, cases);
+            if let Some((s, c, msg)) = first { report(check, &s, &c, &msg); failed = true; }
+        }
+        if failed { std::process::exit(1); }
     }
 }
 
